@@ -40,6 +40,11 @@ CFG = {
         "Swat4.C08.collect_complete_all_arrived",
         "Swat4.C08.parse_render",
         "Swat4.C08.parse_concat",
+        "Swat4.C08.expand_concat",
+        "Swat4.C08.inspect_encode",
+        "Swat4.C08.C08_collect",
+        "Swat4.C08.C08_decode",
+        "Swat4.C08.C08_keeps_reading",
     ],
     "shards": (8, 16),
     "nontrivial": _c08_nontrivial,
@@ -60,7 +65,7 @@ CFG = {
     ],
     "trusted_base": COMMON_TRUSTED,
     "manifest": {
-        "text": "Lean theorems over the model of gs1.go and of the port prober's choice: best_response / best_response_max / best_response_none / best_response_perm — the kept answer is an accepted one (hostport = game port) of maximal dialect (GS1 mod > AdminMod > vanilla), ties go to the latest arrival, discovery fails iff nothing is accepted, and the kept dialect is independent of arrival order.",
+        "text": "Lean theorems over the model of gs1.go and of the port prober's choice. C08_decode: for every well-formed status (Spec/GS1Spec.lean: WfStatus) in the vanilla, vanilla-with-non-numeric-queryid, GS1 mod and three AdminMod variants, cut anywhere between fields (also between a name and its value), delivered in any order with duplicates, the modelled query returns exactly toResponse (fields, players ascending by index with their keys, objectives in order, latin-1 as UTF-8, dialect tag) once every fragment has arrived, and the timeout if one is missing; C08_collect / C08_keeps_reading: reassembly completes exactly when all fragments are there, never earlier; inspect_encode, expand_concat, parse_render/parse_concat: the codec steps; collect_perm / collect_dup: order and duplication independence for any consistent stream; collect_complete_iff / collect_complete_all_arrived: completion = final seen and number of distinct fragment numbers = final's number, which under in-range numbering means all of 1..n arrived. best_response / best_response_max / best_response_none / best_response_perm — the kept answer is an accepted one (hostport = game port) of maximal dialect (GS1 mod > AdminMod > vanilla), ties go to the latest arrival, discovery fails iff nothing is accepted, and the kept dialect is independent of arrival order.",
         "level_note": "Trusted: Lean kernel; axioms propext, Quot.sound, Classical.choice; Spec/GS1Spec.lean as the definition of a well-formed status stream and of the faithful decoding; the finite differential run (real UDP sockets, real portprober.Probe) as evidence that Model/GS1.lean behaves like gs1.go and portprober.go.",
         "technique": "Lean 4 proof (fold/permutation algebra, codec round trip) + differential correspondence over real UDP sockets",
         "design_ref": "DESIGN.md §5 C08",
